@@ -12,7 +12,8 @@ def run(ctx):
     return K.run_common(ctx, PROP, ["c05", "c06"], (200, 2500, 800), (300, 3000, 1000), (350, 5000, 2000), kw,
                         "application scripts that raise or return at every point (before reading, before/after the response start, "
                         "mid-body) crossed with keep-alive pipelines; the client-side h11 parser must see a 500 or a visibly "
-                        "incomplete response, never a complete one, and nothing more may be served on the connection.")
+                        "incomplete response, never a complete one, and nothing more may be served on the connection.",
+                        extra=K.h2_extra(["c05", "c02"], (150, 2500, 800), crashes=True))
 
 
 def known_still_fails(k):
